@@ -156,7 +156,7 @@ func (g *lk) fail(format string, a ...any) string {
 func (g *lk) line(ind int, s string) { g.b.WriteString(strings.Repeat("  ", ind) + s + "\n") }
 
 var lkKeywords = map[string]bool{"at": true, "from": true, "end": true, "open": true, "then": true, "with": true, "fun": true,
-	"match": true, "do": true, "have": true, "show": true, "in": true, "by": true, "local": true, "instance": true, "section": true}
+	"match": true, "matches": true, "do": true, "have": true, "show": true, "in": true, "by": true, "local": true, "instance": true, "section": true}
 
 func lkIdent(n string) string {
 	if lkKeywords[n] {
